@@ -9,6 +9,7 @@ import (
 	"fmt"
 	"math/rand"
 	"net/http"
+	"os"
 	"strings"
 	"sync"
 	"time"
@@ -39,6 +40,13 @@ func c06SelfCheck(r *kit.Run) bool {
 		r.Count("issuer_selfchecks_passed", 1)
 	}
 	return ok
+}
+
+// c06NotReplayed: when ./check --replay asks for one case of one part, the other parts of this
+// property do not need to run again.
+func c06NotReplayed(t interface{ Name() string }) bool {
+	v := os.Getenv("VERIF_ONLY")
+	return v != "" && !strings.HasPrefix(v, t.Name()+":")
 }
 
 func pick(rng *rand.Rand, xs ...string) string { return xs[rng.Intn(len(xs))] }
